@@ -369,3 +369,31 @@ Section GeoBoxGate.
     - destruct (bbox_in_pix_error_kind _ _ _ _ _ _ _ _ E) as [-> | (_ & _ & C)]; [auto | contradiction].
   Qed.
 End GeoBoxGate.
+
+(** * small corollaries stated in Props/C01.v *)
+Lemma common_crs_multigeom_spec (crs : Type) (crs_eqb : crs -> crs -> bool) (G : Type) (fmulti : list G -> G)
+      (first : geom crs G) (rest : list (geom crs G)) :
+  (mismatch_before crs_eqb (gtag first) (map gtag rest) ->
+     common_crs crs_eqb (first :: rest) = Err ECrs /\ multigeom crs_eqb fmulti (first :: rest) = Err ECrs) /\
+  (~ mismatch_before crs_eqb (gtag first) (map gtag rest) ->
+     common_crs crs_eqb (first :: rest) = Ok (gtag first) /\
+     multigeom crs_eqb fmulti (first :: rest) = Ok (mkGeom (fmulti (map ggeom (first :: rest))) (gtag first))).
+Proof.
+  destruct (common_crs_spec crs crs_eqb G first rest) as (A1 & A2).
+  destruct (multigeom_spec crs crs_eqb G fmulti first rest) as (B1 & B2).
+  split; intros H; split; auto.
+Qed.
+
+Lemma gate_symmetric (crs : Type) (crs_eqb : crs -> crs -> bool) (G R : Type) (f f' : G -> G -> G + R)
+      (a b : geom crs G) :
+  (forall x y, crs_eqb x y = crs_eqb y x) ->
+  is_ok (binop crs_eqb f a b) = is_ok (binop crs_eqb f' b a).
+Proof.
+  intros Hs. rewrite !binop_spec.
+  assert (E : tag_ne crs_eqb (gtag a) (gtag b) = tag_ne crs_eqb (gtag b) (gtag a)).
+  { destruct (gtag a), (gtag b); simpl; try reflexivity. rewrite Hs. reflexivity. }
+  rewrite E. destruct (tag_ne crs_eqb (gtag b) (gtag a)); reflexivity.
+Qed.
+
+Lemma errors_are_value_errors : is_value_error ECrs = true /\ is_value_error EValue = true.
+Proof. split; reflexivity. Qed.
